@@ -74,6 +74,8 @@ Next == \/ /\ phase = "main" /\ Cardinality(bag) < MaxBag
            /\ UNCHANGED <<phase, bag>>
 
 BB == { Main[i] : i \in bag }
+\* the rules of the bag that also apply to a script fetched from the same page: document-level rules do not
+BScript == { x \in BB : TypeOK(x, [type |-> "script"]) }
 SS == { Src[j] : j \in sb }
 Idx(R) == { i \in bag : Main[i] \in R }
 
@@ -82,6 +84,8 @@ Emit == /\ (phase = "main" /\ bag = {} => PrintT(ToJson([kind |-> "POOL", main |
                                              web |-> WebClass(BB, SS), winners |-> Idx(WebWinners(BB, SS)),
                                              cands |-> Idx(WebCandidates(BB, SS)),
                                              docwinners |-> { j \in sb : Src[j] \in DocWinners(SS) },
+                                             web2 |-> WebClass(BScript, SS), winners2 |-> Idx(WebWinners(BScript, SS)),
+                                             cands2 |-> Idx(WebCandidates(BScript, SS)),
                                              dns |-> DNSClass(BB), dnswinners |-> Idx(DNSWinners(BB)),
                                              dnscands |-> Idx(Candidates(BB))])))
 
